@@ -36,6 +36,10 @@ func runC10(c *Ctx) {
 	c.sizeRule("R10.5")
 	c.rule("R10.6", "no library mutex stays locked on any return path (a leaked lock wedges the connection for all later frames)")
 	c.lockLeakRule("R10.6")
+	c.rule("R10.8", "every index into the bytes of the request body is guarded by a non-empty test of that same buffer")
+	c.bodyBytesIndexRule("R10.8")
+	c.rule("R10.7", "the read cycle never stalls: once the loop has taken a message from the socket reader, every path back to its select restarts the reader, signals loss or redials")
+	c.readCycleRule("R10.7")
 }
 
 // ---- R10.1
@@ -1305,4 +1309,209 @@ func pathIndexSafe(fn *ssa.Function, at ssa.Instruction, slice ssa.Value, k int6
 		fmt.Printf("pathIndexSafe %s k=%d reach=%v visited=%d\n", fname(fn), k, res, s.visited)
 	}
 	return !res
+}
+
+// readCycleRule: the socket is read by a goroutine that hands one message to the loop and ends; the
+// loop's handling of that message must start the next read (or report the loss) on every path — also
+// for degenerate frames (empty, oversized, undecodable). A path that returns to the select without
+// doing so leaves the connection unread for ever: every later call on it hangs and no fault is noticed.
+func (c *Ctx) readCycleRule(rule string) {
+	p, r := c.P, c.R
+	w := c.ws()
+	arm, ok := w.Arms["incoming"]
+	if !ok || arm.Body == nil || w.Reader == nil {
+		c.und(rule, "socket-message arm of the connection loop", "-", "arm receiving from the socket reader, or the reader goroutine, not resolved")
+		return
+	}
+	isRestart := func(in ssa.Instruction) bool {
+		g, ok := in.(*ssa.Go)
+		return ok && p.unbound(staticCallee(g)) == w.Reader
+	}
+	isLoss := func(in ssa.Instruction) bool {
+		switch x := in.(type) {
+		case *ssa.Send:
+			return c.fieldVal(x.Chan, r.FReadErr)
+		case *ssa.Select:
+			for _, st := range x.States {
+				if st.Dir == types.SendOnly && c.fieldVal(st.Chan, r.FReadErr) {
+					return true
+				}
+			}
+		case ssa.CallInstruction:
+			if b, ok := x.Common().Value.(*ssa.Builtin); ok && b.Name() == "close" && len(x.Common().Args) == 1 {
+				return c.fieldVal(x.Common().Args[0], r.FIncoming)
+			}
+		}
+		return false
+	}
+	redial := map[ssa.Instruction]bool{}
+	for _, g := range c.redialSpawns() {
+		redial[g] = true
+	}
+	// a goroutine started to deal with the message carries the obligation on: every path through it
+	// must restart the reader or signal loss (recursively, bounded)
+	var carries func(fn *ssa.Function, depth int) bool
+	var done func(in ssa.Instruction) bool
+	memo := map[*ssa.Function]bool{}
+	carries = func(fn *ssa.Function, depth int) bool {
+		if fn == nil || !p.allFns[fn] || len(fn.Blocks) == 0 || depth > 3 {
+			return false
+		}
+		if v, ok := memo[fn]; ok {
+			return v
+		}
+		memo[fn] = false
+		hit := false
+		p.coneInstrs(fn, func(x ssa.Instruction) {
+			if isRestart(x) || isLoss(x) {
+				hit = true
+			}
+		})
+		res := hit && reachFromEntry(fn, isReturn, done) == nil
+		memo[fn] = res
+		return res
+	}
+	done = func(in ssa.Instruction) bool {
+		if isRestart(in) || isLoss(in) || redial[in] {
+			return true
+		}
+		if g, ok := in.(*ssa.Go); ok {
+			return carries(p.unbound(staticCallee(g)), 0)
+		}
+		return false
+	}
+	atBoundary := func(in ssa.Instruction) bool { return p.boundary != nil && p.boundary[in] }
+	construct := fmt.Sprintf("%s: message taken from the socket reader", fname(r.FnLoop))
+	if wv := reachFromBlockUp(arm.Body, atBoundary, done); wv != nil {
+		c.bad(rule, construct, c.ipos(arm.Body.Instrs[0]), "a path handles the message and returns to the loop's select without restarting the socket reader, signalling loss or redialling: the connection is never read again (later responses, cancels and close frames go unnoticed)")
+	} else {
+		c.ok(rule, construct, c.ipos(arm.Body.Instrs[0]), "every path restarts the reader, signals loss, redials or leaves the loop")
+	}
+}
+
+// bodyBytesIndexRule: indexes into X.Bytes() of a bytes.Buffer (the HTTP reader peeks at the first and
+// last byte to detect a batch) need X.Len() > 0 established for that very buffer value: a length taken
+// from another buffer (e.g. the untrimmed read count) does not protect the access, and a
+// whitespace-only body then panics instead of being answered with -32600.
+func (c *Ctx) bodyBytesIndexRule(rule string) {
+	p := c.P
+	n := 0
+	bufLen := func(v ssa.Value) (ssa.Value, bool) {
+		v = stripConvInt(v)
+		call, ok := v.(*ssa.Call)
+		if !ok {
+			return nil, false
+		}
+		switch calleeName(call) {
+		case "(*bytes.Buffer).Len":
+			return call.Common().Args[0], true
+		}
+		if b, ok := call.Common().Value.(*ssa.Builtin); ok && b.Name() == "len" {
+			if bc, ok := call.Common().Args[0].(*ssa.Call); ok && calleeName(bc) == "(*bytes.Buffer).Bytes" {
+				return bc.Common().Args[0], true
+			}
+		}
+		return nil, false
+	}
+	for _, fn := range p.Funcs {
+		if pkgOf(fn) != p.Root.Pkg {
+			continue
+		}
+		allInstrs(fn, func(in ssa.Instruction) {
+			var slice, idx ssa.Value
+			switch x := in.(type) {
+			case *ssa.IndexAddr:
+				slice, idx = x.X, x.Index
+			case *ssa.Index:
+				slice, idx = x.X, x.Index
+			default:
+				return
+			}
+			bc, ok := slice.(*ssa.Call)
+			if !ok || calleeName(bc) != "(*bytes.Buffer).Bytes" {
+				return
+			}
+			n++
+			buf := bc.Common().Args[0]
+			construct := fmt.Sprintf("%s: index %s into the request body bytes", fname(fn), idxString(idx))
+			// facts: Len(buf) != 0 / > 0 / >= 1 for this very buffer
+			nonEmpty := false
+			// a helper that hands the buffer out only after checking that it is not empty
+			if ex, ok := buf.(*ssa.Extract); ok {
+				if call, ok := ex.Tuple.(*ssa.Call); ok {
+					if g := p.unbound(staticCallee(call)); g != nil && p.allFns[g] && len(g.Blocks) > 0 {
+						all, some := true, false
+						allInstrsRaw(g, func(x ssa.Instruction) {
+							rt, ok := x.(*ssa.Return)
+							if !ok || ex.Index >= len(rt.Results) {
+								return
+							}
+							rv := blockLocalValue(rt.Results[ex.Index])
+							if isNilConst(rv) {
+								return
+							}
+							some = true
+							okRet := false
+							for _, f := range cmpFactsAt(rt.Block()) {
+								op, L, R := f.Op, f.L, f.R
+								b1, isL := bufLen(L)
+								if !isL {
+									if b2, isR := bufLen(R); isR {
+										op, L, R, b1, isL = flip(op), R, L, b2, true
+									}
+								}
+								if !isL || !(b1 == rv || sameVal(b1, rv)) {
+									continue
+								}
+								if k, isK := constInt(stripConvInt(R)); isK && ((op == token.NEQ && k == 0) || (op == token.GTR && k >= 0) || (op == token.GEQ && k >= 1)) {
+									okRet = true
+								}
+							}
+							if !okRet {
+								all = false
+							}
+						})
+						if some && all {
+							nonEmpty = true
+						}
+					}
+				}
+			}
+			for _, f := range cmpFactsAt(in.Block()) {
+				op, L, R := f.Op, f.L, f.R
+				b1, isL := bufLen(L)
+				if !isL {
+					if b2, isR := bufLen(R); isR {
+						op, L, R, b1, isL = flip(op), R, L, b2, true
+					}
+				}
+				if !isL || !(b1 == buf || sameVal(b1, buf)) {
+					continue
+				}
+				k, isK := constInt(stripConvInt(R))
+				if !isK {
+					continue
+				}
+				if (op == token.NEQ && k == 0) || (op == token.GTR && k >= 0) || (op == token.GEQ && k >= 1) {
+					nonEmpty = true
+				}
+			}
+			safe := false
+			if k, isK := constInt(idx); isK {
+				safe = nonEmpty && k == 0
+			} else if bo, ok := stripConvInt(idx).(*ssa.BinOp); ok && bo.Op == token.SUB {
+				// Len(buf) - 1
+				if b1, isL := bufLen(bo.X); isL && (b1 == buf || sameVal(b1, buf)) {
+					if k, isK := constInt(bo.Y); isK && k == 1 {
+						safe = nonEmpty
+					}
+				}
+			}
+			c.check(safe, rule, construct, c.ipos(in), "guarded by a non-empty test of the same buffer",
+				"the body bytes are indexed without a non-empty test of this very buffer (e.g. the emptiness check looks at the untrimmed read count): a whitespace-only body panics in the reader instead of being answered with the invalid-request error")
+		})
+	}
+	if n == 0 {
+		c.ok(rule, "no index into buffer bytes", "-", "the reader no longer peeks into the raw body bytes")
+	}
 }
